@@ -69,6 +69,13 @@ type setupD struct {
 	Apply map[string]bool `json:"apply"`
 	Group string          `json:"group,omitempty"`
 	Steps []stepD         `json:"steps"`
+	// listener React.Lid reacts to an event (not to one emitted by a reaction) by emitting
+	// React.Act on ev.Resource from inside its call
+	React *reactD `json:"react,omitempty"`
+}
+type reactD struct {
+	Lid int  `json:"lid"`
+	Act actD `json:"act"`
 }
 type caseD struct {
 	Setup setupD `json:"setup"`
@@ -260,9 +267,17 @@ func (c *fakeConn) Close() {}
 // ---------- harness state: the single global effect log ----------
 
 type logEnt struct {
-	cb, act int
-	gidOK   bool
-	term    string
+	cb, act, d int
+	gidOK      bool
+	term       string
+}
+
+// an *Event a listener was handed and kept, with what it showed at that moment
+type kept struct {
+	ev       *res.Event
+	seen     string // Coq term of the record at call time (a deep copy: text)
+	cb       int
+	sameAtCb bool
 }
 type H struct {
 	mu     sync.Mutex
@@ -271,6 +286,9 @@ type H struct {
 	curAct int
 	curGid uint64
 	plan   *actD
+	curD   int // nesting tag: 0, or the id of the re-entrant listener whose reaction is running
+	depth  int
+	kept   []*kept
 	d      caseD
 	rids   []string
 	panics []string
@@ -289,8 +307,60 @@ func goid() uint64 {
 func (h *H) add(term string) {
 	g := goid()
 	h.mu.Lock()
-	h.log = append(h.log, logEnt{h.curCb, h.curAct, g == h.curGid, term})
+	h.log = append(h.log, logEnt{h.curCb, h.curAct, h.curD, g == h.curGid, term})
 	h.mu.Unlock()
+}
+
+func evTermOf(ev *res.Event) string {
+	rid := "<nil>"
+	if ev.Resource != nil {
+		rid = ev.Resource.ResourceName()
+	}
+	return evTerm(ev.Name, rid, ev.NewValues, ev.OldValues, ev.Value, ev.Idx, ev.Data, ev.Payload)
+}
+
+// re-read every retained *Event of callback cb (cb < 0: all): does it still show what was delivered?
+func (h *H) reread(cb int) (terms []string, allSame bool) {
+	h.mu.Lock()
+	ks := append([]*kept{}, h.kept...)
+	h.mu.Unlock()
+	allSame = true
+	for _, k := range ks {
+		if cb >= 0 && k.cb != cb {
+			continue
+		}
+		t := evTermOf(k.ev)
+		terms = append(terms, t)
+		if t != k.seen {
+			allSame = false
+			if cb >= 0 {
+				k.sameAtCb = false
+			}
+		}
+	}
+	return
+}
+
+// one event call on a resource object
+func doEvent(r res.Resource, a actD) {
+	switch a.Op {
+	case "change":
+		r.ChangeEvent(mkMap(a.Vals, a.NilMap))
+	case "add":
+		r.AddEvent(mkVal(a.V), a.Idx)
+	case "remove":
+		r.RemoveEvent(a.Idx)
+	case "create":
+		r.CreateEvent(mkVal(a.V))
+	case "delete":
+		r.DeleteEvent()
+	case "custom":
+		r.Event(a.Name, mkVal(a.V))
+	case "reaccess":
+		r.ReaccessEvent()
+	case "reset":
+		r.ResetEvent()
+	}
 }
 func (h *H) setCur(cb, act int, gid uint64, plan *actD) {
 	h.mu.Lock()
@@ -308,11 +378,29 @@ func (h *H) getPlan() actD {
 
 func (h *H) listener(lid int) func(*res.Event) {
 	return func(ev *res.Event) {
-		rid := "<nil>"
-		if ev.Resource != nil {
-			rid = ev.Resource.ResourceName()
+		seen := evTermOf(ev)
+		g := goid()
+		h.mu.Lock()
+		h.log = append(h.log, logEnt{h.curCb, h.curAct, h.curD, g == h.curGid, "EListen " + strconv.Itoa(lid) + " " + seen})
+		h.kept = append(h.kept, &kept{ev: ev, seen: seen, cb: h.curCb, sameAtCb: true})
+		react := h.d.Setup.React
+		doReact := react != nil && react.Lid == lid && h.depth == 0
+		var savedPlan *actD
+		if doReact {
+			savedPlan = h.plan
+			act := react.Act
+			h.plan, h.depth, h.curD = &act, 1, lid
 		}
-		h.add("EListen " + strconv.Itoa(lid) + " " + evTerm(ev.Name, rid, ev.NewValues, ev.OldValues, ev.Value, ev.Idx, ev.Data, ev.Payload))
+		h.mu.Unlock()
+		if doReact {
+			// restore also when the inner call panics (the panic unwinds the outer call)
+			defer func() {
+				h.mu.Lock()
+				h.plan, h.depth, h.curD = savedPlan, 0, 0
+				h.mu.Unlock()
+			}()
+			doEvent(ev.Resource, react.Act)
+		}
 	}
 }
 
@@ -405,26 +493,11 @@ func (h *H) runScript(ci int, r res.Resource, req res.CallRequest) {
 	h.setCur(ci, 0, g, nil)
 	// whatever the service publishes after the handler returned / panicked is the closing reply
 	defer h.setCur(ci, len(script), g, nil)
+	defer h.reread(ci)
 	for ai := range script {
 		a := script[ai]
 		h.setCur(ci, ai, g, &a)
 		switch a.Op {
-		case "change":
-			r.ChangeEvent(mkMap(a.Vals, a.NilMap))
-		case "add":
-			r.AddEvent(mkVal(a.V), a.Idx)
-		case "remove":
-			r.RemoveEvent(a.Idx)
-		case "create":
-			r.CreateEvent(mkVal(a.V))
-		case "delete":
-			r.DeleteEvent()
-		case "custom":
-			r.Event(a.Name, mkVal(a.V))
-		case "reaccess":
-			r.ReaccessEvent()
-		case "reset":
-			r.ResetEvent()
 		case "timeout":
 			if req != nil {
 				req.Timeout(time.Duration(a.Ms) * time.Millisecond)
@@ -433,6 +506,8 @@ func (h *H) runScript(ci int, r res.Resource, req res.CallRequest) {
 			if req != nil {
 				req.OK(nil)
 			}
+		default:
+			doEvent(r, a)
 		}
 	}
 }
@@ -585,7 +660,7 @@ func wait(ch <-chan struct{}, what string) error {
 }
 
 // runCase drives the real service and returns the Coq term of the case
-func runCase(d caseD) (term string, hang error) {
+func runCase(d caseD) (term string, mutated bool, hang error) {
 	h := &H{d: d, curCb: 999, panics: make([]string, len(d.Cbs))}
 	for i := range h.panics {
 		h.panics[i] = "None"
@@ -606,9 +681,9 @@ func runCase(d caseD) (term string, hang error) {
 	select {
 	case <-started:
 	case <-served:
-		return "", fmt.Errorf("serve returned early: %v", serveErr)
+		return "", false, fmt.Errorf("serve returned early: %v", serveErr)
 	case <-time.After(10 * time.Second):
-		return "", errors.New("timeout waiting for service start")
+		return "", false, errors.New("timeout waiting for service start")
 	}
 	h.mu.Lock()
 	h.log = nil
@@ -681,7 +756,11 @@ func runCase(d caseD) (term string, hang error) {
 	ls := listenersOf(d.Setup)
 	lss := make([]string, len(ls))
 	for i, l := range ls {
-		lss[i] = strconv.Itoa(l)
+		if d.Setup.React != nil && d.Setup.React.Lid == l {
+			lss[i] = "L " + strconv.Itoa(l) + " (Some (" + actTerm(d.Setup.React.Act) + "))"
+		} else {
+			lss[i] = "L " + strconv.Itoa(l) + " None"
+		}
 	}
 	ty := map[string]string{"model": "TModel", "collection": "TCollection", "unset": "TUnset"}[d.Setup.Type]
 	var cbs []string
@@ -699,11 +778,20 @@ func runCase(d caseD) (term string, hang error) {
 	h.mu.Lock()
 	ents := make([]string, len(h.log))
 	for i, e := range h.log {
-		ents[i] = "(" + strconv.Itoa(e.cb) + "," + strconv.Itoa(e.act) + "," + Bool(e.gidOK) + "," + e.term + ")"
+		ents[i] = "(" + strconv.Itoa(e.cb) + "," + strconv.Itoa(e.act) + "," + strconv.Itoa(e.d) + "," + Bool(e.gidOK) + "," + e.term + ")"
 	}
 	pan := append([]string{}, h.panics...)
 	h.mu.Unlock()
-	return "GC " + List(cbs) + "\n " + List(ents) + "\n " + List(pan), hang
+	// every retained *Event, re-read now that the whole group is done
+	final, allSame := h.reread(-1)
+	same := make([]string, len(h.kept))
+	for i, k := range h.kept {
+		same[i] = Bool(k.sameAtCb)
+		if !k.sameAtCb {
+			allSame = false
+		}
+	}
+	return "GC " + List(cbs) + "\n " + List(ents) + "\n " + List(pan) + "\n " + List(final) + " " + List(same), !allSame, hang
 }
 
 // ---------- generation ----------
@@ -953,7 +1041,44 @@ func (g *gen) setup() setupD {
 		sd.Group = "g"
 	}
 	sd.Steps = g.steps(sd.Mode, g.r.Intn(4))
+	if ls := listenersOf(sd); len(ls) > 0 && g.r.Chance(35) {
+		sd.React = &reactD{Lid: ls[g.r.Intn(len(ls))], Act: g.reaction(sd)}
+	}
 	return sd
+}
+
+// the event a re-entrant listener emits: an event call, mostly valid for the resource type
+func (g *gen) reaction(sd setupD) actD {
+	var op string
+	for {
+		op = g.r.Pick([]string{"change", "add", "remove", "create", "delete", "custom", "custom"})
+		wrong := (sd.Type == "collection" && op == "change") || (sd.Type == "model" && (op == "add" || op == "remove"))
+		if wrong && !g.r.Chance(6) {
+			continue
+		}
+		break
+	}
+	a := g.baseAction(op)
+	if g.r.Chance(5) {
+		switch op {
+		case "add", "remove":
+			a.Idx = -1
+		case "custom":
+			a.Name = g.r.Pick(append(append([]string{}, reservedNames...), badNames...))
+		case "change":
+			a.Vals = nil
+		}
+	}
+	ap := "ok"
+	if ch := applyChoices(op); ch != nil {
+		switch k := g.r.Intn(100); {
+		case k < 10:
+			ap = g.r.Pick([]string{"fail-res", "fail-plain"})
+		case k < 30:
+			ap = ch[g.r.Intn(len(ch))]
+		}
+	}
+	return g.withApply(a, sd, ap)
 }
 
 func (g *gen) randomCase() caseD {
@@ -986,11 +1111,19 @@ func main() {
 	var impl []ImplViolation
 	dist := map[string]int{}
 	add := func(class string, d caseD) {
-		term, hang := runCase(d)
+		term, mutated, hang := runCase(d)
 		if hang != nil {
 			impl = append(impl, ImplViolation{What: "group run did not complete: " + hang.Error(), Desc: d, Tags: []string{"hang"}})
 			dist["hang"]++
 			return
+		}
+		if mutated {
+			impl = append(impl, ImplViolation{What: "event mutated after delivery: an *Event kept by a listener no longer shows what the listener was handed", Desc: d, Tags: []string{"event-mutated"}})
+			dist["event-mutated"]++
+		}
+		if d.Setup.React != nil {
+			dist["reentrant-listener"]++
+			dist["reaction:"+d.Setup.React.Act.Op]++
 		}
 		c := Case{Term: term, Desc: d}
 		dist["class:"+class]++
@@ -1104,6 +1237,60 @@ func main() {
 					}
 					add("unmarshalable", single(sd, ctx, a, g.baseAction("reaccess")))
 				}
+			}
+		}
+		// (e) two events in a row on the SAME resource object inside one callback, with listeners
+		evOps := []string{"change", "add", "remove", "create", "delete", "custom"}
+		for i, op1 := range evOps {
+			for j, op2 := range evOps {
+				ty := "unset"
+				ctx := []string{"call", "with"}[(i+j)%2]
+				mode := []string{"direct", "pattern", "mount", "wild", "mountpat", "root"}[(i*6+j)%6]
+				sd := setupD{Mode: mode, Type: ty, Apply: allApply((i+j)%3 != 0), Steps: g.steps(mode, 1+(i+j)%3)}
+				a1 := g.withApply(g.baseAction(op1), sd, "ok")
+				a2 := g.withApply(g.baseAction(op2), sd, "ok")
+				add("two-events", single(sd, ctx, a1, a2, g.withApply(g.baseAction(op1), sd, "ok")))
+			}
+		}
+		// (f) re-entrant listeners: listener k of 3 reacts to event op1 by emitting op2 on ev.Resource
+		for i, op1 := range evOps {
+			for j, op2 := range evOps {
+				for pos := 1; pos <= 3; pos++ {
+					ctx := []string{"call", "with"}[(i+j+pos)%2]
+					mode := []string{"direct", "pattern", "mount", "wild", "mountpat", "root"}[(i*6+j+pos)%6]
+					sd := setupD{Mode: mode, Type: "unset", Apply: allApply((i+j+pos)%2 == 0), Steps: g.steps(mode, 3)}
+					sd.React = &reactD{Lid: listenersOf(sd)[pos-1], Act: g.withApply(g.baseAction(op2), sd, "ok")}
+					a1 := g.withApply(g.baseAction(op1), sd, "ok")
+					add("reentrant", single(sd, ctx, a1, g.baseAction("reaccess")))
+				}
+			}
+		}
+		// ... whose reaction panics (invalid call / failing apply) or is a no-op
+		for i, op1 := range evOps {
+			for k := 0; k < 5; k++ {
+				ctx := []string{"call", "with"}[(i+k)%2]
+				sd := setupD{Mode: "direct", Type: "collection", Apply: allApply(true), Steps: g.steps("direct", 3)}
+				var ra actD
+				switch k {
+				case 0:
+					ra = g.baseAction("custom")
+					ra.Name = "patch"
+				case 1:
+					ra = g.withApply(g.baseAction("remove"), sd, "fail-res")
+				case 2:
+					ra = g.withApply(g.baseAction("add"), sd, "ok")
+					ra.Idx = -1
+				case 3:
+					ra = g.withApply(actD{Op: "change"}, sd, "ok") // change on a collection: panics
+				case 4:
+					ra = g.withApply(g.baseAction("create"), sd, "fail-plain")
+				}
+				sd.React = &reactD{Lid: listenersOf(sd)[1], Act: ra}
+				a1 := g.withApply(g.baseAction(op1), sd, "ok")
+				if op1 == "change" {
+					sd.Type = "unset"
+				}
+				add("reentrant-panic", single(sd, ctx, a1, g.baseAction("reaccess")))
 			}
 		}
 		// (d) random groups
